@@ -204,7 +204,12 @@ static void cmd_demarshal (int argc, char **argv)
   dbus_error_init (&err);
   n_fixed_mismatch = 0;
   m = dbus_message_demarshal ((const char *) buf, (int) n, &err);
-  if (m)
+  if (m && argc > 2 && !strcmp (argv[2], "nocanon"))
+    {
+      ob_puts (&out, " dm=1");
+      dbus_message_unref (m);
+    }
+  else if (m)
     {
       ob_puts (&out, " dm=1 re0=");
       marshal_hex (m, &out);
@@ -224,7 +229,7 @@ static void cmd_demarshal (int argc, char **argv)
   if (!_dbus_message_loader_queue_messages (l)) ob_puts (&out, " ldoom=1");
   while ((m = _dbus_message_loader_pop_message (l)))
     {
-      if (popped == 0) canon_msg (m, &c2);
+      if (popped == 0 && !(argc > 2 && !strcmp (argv[2], "nocanon"))) canon_msg (m, &c2);
       popped++;
       dbus_message_unref (m);
     }
